@@ -51,6 +51,11 @@ pub struct C20Case {
     pub ops: Vec<Op>,
     /// further locomotives (initial states only) to form a consist with the target afterwards
     pub others: Vec<LocoInit>,
+    /// cars (and an optional explicit mass) to build a train around the consist afterwards
+    #[serde(default)]
+    pub cars: Vec<crate::gen::train::CarSpec>,
+    #[serde(default)]
+    pub train_mass: Option<f64>,
 }
 
 fn side(k: u8) -> MassSideEffect {
@@ -590,6 +595,41 @@ fn run_loco(case: &C20Case, cx: &mut Ctx) {
             Err(e) => cx.fail("C20|consist|force_max-err-on-consistent-units", format!("{e:#}")),
         }
         cx.label_if(locos.len() > 1, "consist_aggregate_checked");
+        // ---- train: static mass = cars (or the explicit override) + consist
+        if let (false, Ok(Some(cm))) = (case.cars.is_empty(), con.mass()) {
+            use crate::gen::net_chain::{build_chain, link_idxs, LinkSpec, SetSpec};
+            let spec = crate::gen::train::TrainSpec {
+                cars: case.cars.clone(),
+                train_type: 1,
+                length_override: None,
+                mass_override: case.train_mass,
+                dummy: false,
+                units: vec![],
+                pdct: 0,
+                init_time: 0.0,
+            };
+            let link = LinkSpec { length: 30000.0, elevs: vec![(0.0, 0.0), (30000.0, 0.0)], headings: vec![], cats: vec![], single: true, sets: vec![SetSpec { train_type: 1, head_end: false, params: vec![], limits: vec![(0.0, 30000.0, 20.0)] }] };
+            let net = build_chain(&[link]);
+            let built = (|| -> anyhow::Result<f64> {
+                let tsb = altrios_core::train::TrainSimBuilder::new("t".into(), spec.build_config()?, con.clone(), None, None, None);
+                let trace = altrios_core::train::SpeedTrace::new(vec![0.0, 1.0], vec![0.0, 0.5], None);
+                let sim = tsb.make_set_speed_train_sim(&net, link_idxs(0..1), trace, None)?;
+                Ok(sim.state.mass_static.value)
+            })();
+            match built {
+                Ok(ms) => {
+                    cx.label(if case.train_mass.is_some() { "train_mass_with_override" } else { "train_mass_from_cars" });
+                    let towed = case.train_mass.unwrap_or_else(|| spec.cars_mass());
+                    if !aeq(ms, towed + cm.value) {
+                        cx.fail(
+                            format!("C20|train|mass_static!={}+consist", if case.train_mass.is_some() { "override" } else { "cars" }),
+                            format!("train static mass {ms} vs towed {towed} + consist {}", cm.value),
+                        );
+                    }
+                }
+                Err(e) => cx.label(&format!("train_not_built:{}", msg_class(&format!("{e:#}"), 30))),
+            }
+        }
     }
     if accepted >= 3 && kinds.len() >= 2 {
         cx.nontrivial();
@@ -694,7 +734,15 @@ impl C20 {
         }
         let loco_init = if target == 3 { Some(gen_loco_init(g)) } else { None };
         let others = if target == 3 { (0..g.usize(0, 3)).map(|_| gen_loco_init(g)).collect() } else { vec![] };
-        C20Case { target, comp_init: (m0, s0, rating0), loco_init, ops, others }
+        let (cars, train_mass) = if target == 3 && g.bool(0.5) {
+            let cars: Vec<_> = (0..g.usize(1, 3)).map(|t| crate::gen::train::gen_car(g, ["Bulk", "Manifest", "Intermodal"][t], 40)).collect();
+            let sum: f64 = cars.iter().map(|c| c.mass() * c.n as f64).sum();
+            let tm = if g.bool(0.5) { Some(Gen::round(sum * g.grid(0.7, 1.4, 14) + 0.5, 1)) } else { None };
+            (cars, tm)
+        } else {
+            (vec![], None)
+        };
+        C20Case { target, comp_init: (m0, s0, rating0), loco_init, ops, others, cars, train_mass }
     }
     fn check(case: &C20Case, cx: &mut Ctx) {
         match case.target {
